@@ -119,58 +119,145 @@ class Prov(AbsInt):
         return TOP
 
 
+class FrameInterp:
+    """Straight-line interpreter of the plot helpers: which parameter each block of rows comes from and which
+    label it carries.  A frame value is a tuple of (source parameter, label or None, index kind)."""
+
+    def __init__(self, ctx, rep, label_col='Data'):
+        self.ctx = ctx
+        self.prog = ctx.prog
+        self.rep = rep
+        self.label_col = None
+        self.events = []  # (kind, fn, node, msg)
+        self.n_label_stores = 0
+
+    def eval(self, fn, e, env, depth=0):
+        prog = self.prog
+        if isinstance(e, ast.Name):
+            return env.get(e.id)
+        if isinstance(e, ast.Call):
+            nm = prog.resolve(fn.module, e.func)
+            if isinstance(e.func, ast.Attribute) and e.func.attr in ('copy', 'reset_index', 'dropna') :
+                return self.eval(fn, e.func.value, env, depth)
+            if nm in ('pandas.DataFrame', 'copy.deepcopy', 'copy.copy') and e.args:
+                return self.eval(fn, e.args[0], env, depth)
+            if nm == 'pandas.concat' and e.args and isinstance(e.args[0], (ast.List, ast.Tuple)):
+                parts = []
+                for el in e.args[0].elts:
+                    v = self.eval(fn, el, env, depth)
+                    if v is None:
+                        return None
+                    parts.extend(v)
+                ign = kwarg(e, 'ignore_index')
+                reset = ign is not None and const_value(ign) is True
+                return tuple((src, lab, 'range' if reset else idx) for src, lab, idx in parts)
+            if nm in prog.functions and depth < 2:
+                g = prog.functions[nm]
+                binding = get_alias(self.ctx).bind(fn, e, g)
+                env2 = {}
+                for pn, args in binding.items():
+                    if args:
+                        env2[pn] = self.eval(fn, args[0], env, depth)
+                return self.run(g, env2, depth + 1)
+        return None
+
+    def run(self, fn, env, depth=0):
+        """Interpret the top-level statements of fn; returns the value of its (single) return."""
+        ret = None
+        for st in fn.body():
+            if isinstance(st, ast.Assign) and len(st.targets) == 1:
+                t = st.targets[0]
+                if isinstance(t, ast.Name):
+                    env[t.id] = self.eval(fn, st.value, env, depth)
+                elif isinstance(t, ast.Tuple) and isinstance(st.value, ast.Tuple) and len(t.elts) == len(st.value.elts):
+                    vals = [self.eval(fn, v, env, depth) for v in st.value.elts]
+                    for te, v in zip(t.elts, vals):
+                        if isinstance(te, ast.Name):
+                            env[te.id] = v
+                elif isinstance(t, ast.Subscript) and isinstance(st.value, ast.Constant) and isinstance(st.value.value, str):
+                    self.label_store(fn, st, t, st.value.value, env)
+            elif isinstance(st, ast.Return) and st.value is not None:
+                ret = self.eval(fn, st.value, env, depth) if not isinstance(st.value, ast.Call) or \
+                    not (self.prog.resolve(fn.module, st.value.func) or '').startswith('copulas.visualization._generate_scatter') \
+                    else ('sink', st.value)
+                if isinstance(ret, tuple) and ret and ret[0] == 'sink':
+                    self.sink = (fn, st.value, dict(env))
+                    ret = None
+        return ret
+
+    def label_store(self, fn, st, target, label, env):
+        base = target.value
+        if isinstance(base, ast.Name) and isinstance(const_value(target.slice), str):
+            v = env.get(base.id)
+            self.n_label_stores += 1
+            self.label_col = const_value(target.slice)
+            if v is None:
+                self.events.append(('undecided', fn, st, f'provenance of the labelled frame `{base.id}` not derivable'))
+                return
+            env[base.id] = tuple((src, label, idx) for src, _l, idx in v)
+            self.events.append(('label', fn, st, (tuple(src for src, _l, _i in v), label)))
+            return
+        # F.loc[selector, 'Data'] = label  /  F.iloc[...]
+        if isinstance(base, ast.Attribute) and base.attr in ('loc', 'iloc') and isinstance(base.value, ast.Name) \
+                and isinstance(target.slice, ast.Tuple) and len(target.slice.elts) == 2:
+            v = env.get(base.value.id)
+            sel = target.slice.elts[0]
+            self.n_label_stores += 1
+            if v is None:
+                self.events.append(('undecided', fn, st, 'provenance of the partially relabelled frame not derivable'))
+                return
+            if base.attr == 'loc' and isinstance(sel, ast.Attribute) and sel.attr == 'index' and isinstance(sel.value, ast.Name):
+                src = env.get(sel.value.id)
+                self.events.append(('bad', fn, st, f"rows are re-labelled '{label}' by looking up the index labels of `{sel.value.id}` in "
+                                    'a concatenated table whose index was reset / contains both tables: for a non-default index the '
+                                    'wrong rows (or rows of both tables) receive the label'))
+                return
+            self.events.append(('undecided', fn, st, 'partial relabelling by a selector that is not understood'))
+
+
 def m2(ctx, rep):
     prog = ctx.prog
     rep.rule('M2.label', "rows from `real`/`data` are labelled 'Real', rows from `synth` 'Synthetic', each frame once")
     rep.rule('M2.axes', 'x/y/z are the first two/three requested (or default) columns, colour and symbol follow the label column')
     viz = 'copulas.visualization.'
-    pv = Prov(ctx)
     expected = {'real': 'Real', 'data': 'Real', 'synth': 'Synthetic'}
     n = 0
     for name, dim in (('scatter_2d', 2), ('compare_2d', 2), ('scatter_3d', 3), ('compare_3d', 3)):
         fn = prog.func(viz + name)
-        fr = Frame(fn)
+        fi = FrameInterp(ctx, rep)
+        fi.sink = None
+        env = {p: ((p, None, 'own'),) for p in fn.params if p in expected}
+        fi.run(fn, env)
+        n += fi.n_label_stores
         labels = {}
-        label_col = None
-        for st in walk_no_nested(fn.node):
-            if isinstance(st, ast.Assign) and len(st.targets) == 1 and isinstance(st.targets[0], ast.Subscript) \
-                    and isinstance(st.targets[0].value, ast.Name) and isinstance(st.value, ast.Constant) \
-                    and isinstance(st.value.value, str):
-                src = pv.value(st.targets[0].value, fr)
-                col = const_value(st.targets[0].slice)
-                lab = st.value.value
-                n += 1
-                if isinstance(src, tuple) and src[0] == 'p' and src[1] in expected:
-                    label_col = col
-                    labels[src[1]] = lab
-                    rep.check('M2.label', fn, st, lab == expected[src[1]],
-                              f"frame derived from `{src[1]}` labelled '{lab}'",
-                              f"rows of `{src[1]}` are labelled '{lab}' instead of '{expected[src[1]]}'")
-                else:
-                    rep.undecided('M2.label', fn, st, f'provenance of the labelled frame not derivable ({src})')
+        label_col = fi.label_col
+        for kind, f, node, msg in fi.events:
+            if kind == 'bad':
+                rep.bad('M2.label', f, node, msg)
+            elif kind == 'undecided':
+                rep.undecided('M2.label', f, node, msg)
         frames = [p for p in fn.params if p in expected]
-        for p in frames:
-            if p not in labels:
-                rep.bad('M2.label', fn, fn.node.name, f'rows of `{p}` never receive a label', construct=f'label of {p}')
-        # the helper call: data argument contains every frame exactly once
-        helper_calls = [c for c in walk_no_nested(fn.node) if isinstance(c, ast.Call)
-                        and (prog.resolve(fn.module, c.func) or '').startswith(viz + '_generate_scatter')]
-        if not helper_calls:
+        if fi.sink is None:
             rep.undecided('M2.label', fn, fn.node.name, 'plot builder call not found', construct='builder call')
             continue
-        hc = helper_calls[0]
+        _f, hc, senv = fi.sink
         helper = prog.functions[prog.resolve(fn.module, hc.func)]
         binding = get_alias(ctx).bind(fn, hc, helper)
-        dv = pv.value(binding['data'][0], fr) if binding.get('data') else TOP
-        parts = list(dv[1]) if isinstance(dv, tuple) and dv[0] == 'concat' else [dv]
-        got = [x[1] for x in parts if isinstance(x, tuple) and x[0] == 'p']
-        if any(not (isinstance(x, tuple) and x[0] == 'p') for x in parts):
-            rep.undecided('M2.label', fn, hc, f'plotted frame not derivable ({dv})', construct='plotted frame')
+        dv = fi.eval(fn, binding['data'][0], senv) if binding.get('data') else None
+        if dv is None:
+            if not any(k == 'bad' for k, *_ in fi.events):
+                rep.undecided('M2.label', fn, hc, 'plotted frame not derivable', construct='plotted frame')
         else:
+            got = [src for src, _l, _i in dv]
             rep.check('M2.label', fn, hc, sorted(got) == sorted(frames),
                       f'the plotted frame consists of {got}, each exactly once',
                       f'the plotted frame consists of {got}; expected each of {frames} exactly once',
                       construct='plotted frame')
+            for src, lab, _i in dv:
+                labels[src] = lab
+                if src in expected:
+                    rep.check('M2.label', fn, hc, lab == expected[src], f"rows of `{src}` carry the label '{lab}'",
+                              f"rows of `{src}` carry the label {lab!r} instead of '{expected[src]}'", construct=f'label of {src}')
         cv = binding.get('columns')
         rep.check('M2.axes', fn, hc, bool(cv) and isinstance(cv[0], ast.Name) and cv[0].id == 'columns',
                   'requested columns forwarded to the builder', 'the requested columns are not forwarded',
